@@ -2311,7 +2311,8 @@ impl<'t, 'd> Gen<'t, 'd> {
                             .filter(|(j, _)| *j != i && frame.cols[*j].rel != frame.cols[i].rel && frame.cols[*j].rel.is_some())
                             .cloned()
                             .collect();
-                        if !other.is_empty() && refs.len() >= 3 && self.t.chance(1, 2) {
+                        let p_two = if known { 2 } else { 4 };
+                        if !other.is_empty() && refs.len() >= 3 && self.t.chance(p_two - 1, p_two) {
                             let (j, text2) = other[self.t.choose(other.len())].clone();
                             let mut rest2 = frame.cols.clone();
                             rest2.remove(i.max(j));
